@@ -1,4 +1,5 @@
 import Proofs.Payouts
+import Proofs.OrderFree
 import Proofs.Chain
 import Pegnet.Generated.Facts
 /-
@@ -98,6 +99,41 @@ theorem single_staker_order_irrelevant (ord : List Addr) (x : Addr × Nat) :
       | cons _ _ => simp at h1
   · rw [if_neg hc]; rfl
 
+/-! ### the two hash-map sites, for every iteration order (Proofs/OrderFree.lean) -/
+
+/-- **Holder staking payouts do not depend on map iteration order.** `SnapshotPayouts` collects
+    the stakers by ranging over a Go map and sorts them by (stake, address) — fix 5b8087b; the
+    sorted slice, whose indices become the payout txids, is the same for every order in which the
+    map can be iterated (every permutation of the stakers). Before the fix this was false:
+    `staking_tie_is_order_dependent`. -/
+theorem staking_order_free {l₁ l₂ : List (Addr × Nat)} (h : l₁.Perm l₂) :
+    orderStakes [] l₁ = orderStakes [] l₂ := by
+  have e : ∀ l : List (Addr × Nat), orderStakes [] l = sortStakes l := by
+    intro l
+    unfold orderStakes
+    cases l with
+    | nil => rfl
+    | cons x xs => simp
+  rw [e, e]
+  exact sortStakes_order_free h
+
+/-- **`ConversionSupplySet.Payouts` does not depend on map iteration order**: the amount paid to
+    every txid (including who receives the rounding dust: the highest request, ties to the
+    smallest txid in `SortTxIDS` order) is the same for every order of the request map. -/
+theorem payouts_order_free (bank : Nat) {l₁ l₂ : List (TxKey × Nat)} (h : l₁.Perm l₂) (k : TxKey) (v : Nat) :
+    (k, v) ∈ payouts bank l₁ ↔ (k, v) ∈ payouts bank l₂ :=
+  (Pegnet.payouts_order_free bank h).mem_iff
+
+/-- the dust receiver itself: the least txid among the highest requests is order-free -/
+theorem dust_receiver_order_free {l₁ l₂ : List TxKey} (h : l₁.Perm l₂) : minKey l₁ = minKey l₂ := minKey_perm h
+
+/-- non-vacuity: two iteration orders of one request set with tied top requests, total above the
+    bank — same payouts, the dust goes to the smaller txid in both -/
+example :
+    payouts 100 [(⟨0, "bb"⟩, 70), (⟨0, "aa"⟩, 70), (⟨1, "aa"⟩, 10)] = [(⟨0, "bb"⟩, 46), (⟨0, "aa"⟩, 48), (⟨1, "aa"⟩, 6)] ∧
+    payouts 100 [(⟨1, "aa"⟩, 10), (⟨0, "aa"⟩, 70), (⟨0, "bb"⟩, 70)] = [(⟨1, "aa"⟩, 6), (⟨0, "aa"⟩, 48), (⟨0, "bb"⟩, 46)] := by
+  decide
+
 end Pegnet.C01
 
 #print axioms Pegnet.C01.replay_is_a_function
@@ -107,3 +143,6 @@ end Pegnet.C01
 #print axioms Pegnet.C01.share_order_free
 #print axioms Pegnet.C01.staking_tie_is_order_dependent
 #print axioms Pegnet.C01.single_staker_order_irrelevant
+#print axioms Pegnet.C01.staking_order_free
+#print axioms Pegnet.C01.payouts_order_free
+#print axioms Pegnet.C01.dust_receiver_order_free
